@@ -153,7 +153,10 @@ def entries(pym, seed, thorough=False):
                     lambda si, so, d=d, kw=kw: pym.OverhangFilter(si, so, d, **kw), [rng.random(d.nel) * 0.9 + 0.05], tol=3e-4, h=2e-4)
         # deliberately anisotropic 3-D cases (every axis has its own size, kernels without any mirror symmetry,
         # no constant padding that could hide an axis): axis mix-ups and missing flips cannot cancel here
-        for shp in ((4, 3, 2), (2, 3, 4), (3, 4, 2)):
+        aniso = ((4, 3, 2), (2, 3, 4), (3, 4, 2))
+        if not thorough:    # quick tier: one anisotropic 3-D shape per run (rotating with the seed); thorough: all three
+            aniso = (aniso[seed % 3],)
+        for shp in aniso:
             d = pym.DomainDefinition(*shp, 1.0, 0.5, 2.0)
             x = rnd(d.nel)
             nm = ['symmetric', 'edge', 'wrap']
